@@ -50,31 +50,52 @@ pub fn portfolio(name: &str) -> Vec<Rewrite> {
 use std::{panic::catch_unwind, path::Path};
 
 /// Runs one case of the implementation: a panic is the outcome `(panic)`, a call that has not returned after
-/// HANG_SECS is the outcome `(hang)` (its thread is left behind; the process ends with the suite; after three of them the rest of the suite is not run) - so that a
-/// change that makes anthem loop is reported with the input as a disagreement, not as a harness time-out.
+/// HANG_SECS is the outcome `(hang)` - so that a change that makes anthem loop is reported with the input as a
+/// disagreement, not as a harness time-out. All cases run on ONE long-lived worker thread (thread-local and other
+/// process state of the implementation survives from case to case, as it does in a real run - a change that
+/// memoises results across calls must stay visible); only after a hang is the worker abandoned (it is left
+/// running; the process ends with the suite) and a new one started. After three hangs the rest of the suite is
+/// not run.
 const HANG_SECS: u64 = 10;
 static HANGS: std::sync::atomic::AtomicUsize = std::sync::atomic::AtomicUsize::new(0);
+
+type Job = Box<dyn FnOnce() -> String + Send + 'static>;
+static WORKER: std::sync::Mutex<Option<std::sync::mpsc::Sender<(Job, std::sync::mpsc::Sender<String>)>>> = std::sync::Mutex::new(None);
+
+fn spawn_worker() -> Option<std::sync::mpsc::Sender<(Job, std::sync::mpsc::Sender<String>)>> {
+    let (tx, rx) = std::sync::mpsc::channel::<(Job, std::sync::mpsc::Sender<String>)>();
+    std::thread::Builder::new().stack_size(512 << 20).spawn(move || {
+        for (job, reply) in rx {
+            let r = match catch_unwind(std::panic::AssertUnwindSafe(job)) {
+                Ok(s) => s,
+                Err(_) => "(panic)".to_string(),
+            };
+            let _ = reply.send(r);
+        }
+    }).ok()?;
+    Some(tx)
+}
 
 fn guarded(f: impl FnOnce() -> String + std::panic::UnwindSafe + Send + 'static) -> String {
     if HANGS.load(std::sync::atomic::Ordering::Relaxed) >= 3 {
         // three cases are still running: the rest of the suite is not run (the check has failed already)
         return "(not-run-after-three-hangs)".to_string();
     }
-    let (tx, rx) = std::sync::mpsc::channel();
-    let spawned = std::thread::Builder::new().stack_size(512 << 20).spawn(move || {
-        let r = match catch_unwind(f) {
-            Ok(s) => s,
-            Err(_) => "(panic)".to_string(),
-        };
-        let _ = tx.send(r);
-    });
-    if spawned.is_err() {
+    let mut w = WORKER.lock().unwrap();
+    if w.is_none() {
+        *w = spawn_worker();
+    }
+    let Some(tx) = w.as_ref() else { return "(panic)".to_string() };
+    let (rtx, rrx) = std::sync::mpsc::channel();
+    if tx.send((Box::new(f), rtx)).is_err() {
+        *w = None;
         return "(panic)".to_string();
     }
-    match rx.recv_timeout(std::time::Duration::from_secs(HANG_SECS)) {
+    match rrx.recv_timeout(std::time::Duration::from_secs(HANG_SECS)) {
         Ok(s) => s,
         Err(_) => {
             HANGS.fetch_add(1, std::sync::atomic::Ordering::Relaxed);
+            *w = None;
             "(hang)".to_string()
         }
     }
@@ -448,7 +469,7 @@ fn completion(seed: u64, n: usize, corpus: Option<&Path>) -> Vec<Case> {
                         // variables as arguments (mostly distinct)
                         let names = ["V1", "V2", "V3", "X", "Y"];
                         a.terms = (0..a.terms.len()).map(|j| {
-                            let v = fol::Variable { name: names[if g.rng.chance(1, 8) { 0 } else { j % 5 }].to_string(), sort: if g.rng.chance(1, 6) { fol::Sort::Integer } else { fol::Sort::General } };
+                            let v = fol::Variable { name: names[if g.rng.chance(1, 8) { 0 } else { j % 5 }].to_string(), sort: match g.rng.below(6) { 0 => fol::Sort::Integer, 1 => fol::Sort::Symbol, _ => fol::Sort::General } };
                             v.into()
                         }).collect();
                     }
